@@ -27,6 +27,8 @@ func mgmtAlphabet() []EOp {
 		{Kind: "upds", Sec: "p", PType: "p", Rules: [][]string{P[0], P[1]}, News: [][]string{P[2], {"carol", "data2", "write"}}},
 		{Kind: "rmf", Sec: "p", PType: "p", FI: 1, Vals: []string{"data1"}},
 		{Kind: "updf", Sec: "p", PType: "p", FI: 0, Vals: []string{"alice"}, News: [][]string{{"alice", "data2", "write"}}},
+		// a replacement set that keeps one of the rules the filter selects
+		{Kind: "updf", Sec: "p", PType: "p", FI: 2, Vals: []string{"read"}, News: [][]string{P[0], {"dave", "data1", "read"}}},
 		{Kind: "add", Sec: "g", PType: "g", Rule: G[0]}, {Kind: "add", Sec: "g", PType: "g", Rule: G[1]},
 		{Kind: "rm", Sec: "g", PType: "g", Rule: G[0]},
 		{Kind: "adds", Sec: "g", PType: "g", Rules: G},
@@ -81,7 +83,7 @@ func runC10(c *Ctx) {
 		depth = 4
 	}
 	c.Exhaustive = true
-	c.Rule = fmt.Sprintf("all management-call histories of depth <= %d over a 17-call alphabet (p and g; single, batch, Ex, update, batch update, filtered removal, UpdateFilteredPolicies) plus SavePolicy/LoadPolicy, with the recording set-semantics adapter implementing every optional interface, under both auto-save settings; after every call the adapter contents and call log are compared with the Lean model and, after every successful call with auto-save on, a second real enforcer freshly loaded from the adapter must make the same decisions over the 16-request universe (checked on the implementation); the file/string adapter save/load round trip over loadable fields; non-trivial = a history with a call that changed the policy and one that was refused; distinct = whole history", depth)
+	c.Rule = fmt.Sprintf("all management-call histories of depth <= %d over an 18-call alphabet (p and g; single, batch, Ex, update, batch update, filtered removal, UpdateFilteredPolicies) plus SavePolicy/LoadPolicy, with the recording set-semantics adapter implementing every optional interface, under both auto-save settings; after every call the adapter contents and call log are compared with the Lean model and, after every successful call with auto-save on, a second real enforcer freshly loaded from the adapter must make the same decisions over the 16-request universe (checked on the implementation); the file/string adapter save/load round trip over loadable fields; non-trivial = a history with a call that changed the policy and one that was refused; distinct = whole history", depth)
 	for _, autosave := range []bool{true, false} {
 		autosave := autosave
 		alpha := append(mgmtAlphabet(), EOp{Kind: "save"}, EOp{Kind: "load"})
